@@ -44,7 +44,7 @@ def with_dirstyle(command, c):
         return c
     import zlib
     body = json.dumps({k: v for k, v in c.items() if k != "id"}, sort_keys=True, ensure_ascii=False)
-    return dict(c, dirstyle=zlib.crc32(body.encode("utf-8")) % 5)
+    return dict(c, dirstyle=zlib.crc32(body.encode("utf-8")) % 6)
 
 
 class ServerCrash(Exception):
